@@ -188,6 +188,63 @@ def _task_histories(task):
     return t
 
 
+def cold_start_probe():
+    """Subprocess entry (fresh interpreter): for every shape (p % 8, n) the FIRST read of that shape in the process is one that runs past the
+    end of a too-short buffer (it may fail: not judged); the next read of the same shape is in range and must be correct.  Whatever the library
+    keeps at module level must not be poisoned by a failed read."""
+    import json
+    from space_packet_parser.packets import RawPacketData as RPD
+    bad = []
+    n_ok = 0
+    long_buf = bytes((i * 89 + 0x35) & 0xFF for i in range(24))
+    bits = _bits(long_buf)
+    for kind in ("int", "bytes"):
+        for pm in range(8):
+            for n in list(range(1, 73)) + [80, 96, 127, 128]:
+                short = RPD(long_buf[:max(0, (pm + n) // 8 - (1 if (pm + n) % 8 == 0 else 0))])   # one byte too short for the field
+                short.pos = pm
+                try:
+                    short.read_as_int(n) if kind == "int" else short.read_as_bytes(n)
+                except Exception:  # noqa: BLE001
+                    pass
+                for p in (pm, pm + 8, pm + 16):
+                    if p + n > len(bits):
+                        continue
+                    r = RPD(long_buf)
+                    r.pos = p
+                    try:
+                        got = r.read_as_int(n) if kind == "int" else r.read_as_bytes(n)
+                    except Exception as e:  # noqa: BLE001
+                        got = f"raised:{type(e).__name__}"
+                    want_int = int(bits[p:p + n], 2)
+                    want = want_int if kind == "int" else want_int.to_bytes((n + 7) // 8, "big")
+                    if got != want or r.pos != p + n:
+                        bad.append({"read": kind, "pos": p, "nbits": n, "got": got.hex() if isinstance(got, bytes) else got})
+                    else:
+                        n_ok += 1
+    print(json.dumps({"ok": n_ok, "bad": bad[:40], "n_bad": len(bad)}))
+
+
+def _cold_start(t: Tally):
+    import json
+    import os
+    import subprocess
+    import sys
+    from mc import VERIF_ROOT
+    p = subprocess.run([sys.executable, "-c", "from mc.checks.c03 import cold_start_probe; cold_start_probe()"], cwd=VERIF_ROOT,
+                       env=dict(os.environ, PYTHONDONTWRITEBYTECODE="1"), capture_output=True, text=True, timeout=600)
+    if p.returncode != 0:
+        t.violation({"kind": "cold-start-probe-failed"}, {"cold_start": True}, observed=p.stderr[-400:])
+        return
+    res = json.loads(p.stdout.strip().splitlines()[-1])
+    t.evals += res["ok"] + res["n_bad"]
+    t.traces += 1
+    t.outcomes["cold-start"] += res["ok"]
+    for b in res["bad"][:10]:
+        t.violation({"kind": "read-after-failed-read", "read": b["read"]}, {"cold_start": True, "buf": bytes((i * 89 + 0x35) & 0xFF for i in range(24)).hex(), **b},
+                    note="in a fresh interpreter, an in-range read that follows a failed over-read of the same shape (pos % 8, width) is wrong")
+
+
 def run(ctx):
     import itertools
     bufs = [b""] + [bytes([a]) for a in range(256)]
@@ -213,6 +270,7 @@ def run(ctx):
     if not ctx.quick:
         htasks += [{"lengths": [3], "firsts": [f], "depth": 4} for f in range(len(_ops_for(24)))]
     tally.merge(fan_out(_task_histories, htasks, jobs=ctx.jobs, seed=ctx.seed))
+    _cold_start(tally)
     coverage = {
         "programs": len(bufs),
         "exhaustive": True,
@@ -221,7 +279,8 @@ def run(ctx):
                   "{all-0, all-1, A5, 5A, index pattern, every filling of the 4+4 bits around each window edge over 0- and 1-background}; "
                   "walking-1/walking-0 over every bit for lengths 3..%d; (c) aligned and unaligned reads on 64, 4096, 65542-byte buffers; "
                   f"(d) histories on ONE object: every sequence of {depth} reads over an alphabet of (position, width, kind) with the cursor set freely before each read, "
-                  f"buffers of {'3, 8, 16' if ctx.quick else '3, 6, 8, 16, 32 bytes, and every sequence of 4 reads on 3'} bytes, cached header properties touched at varying points" % (4 if ctx.quick else 6)),
+                  f"buffers of {'3, 8, 16' if ctx.quick else '3, 6, 8, 16, 32 bytes, and every sequence of 4 reads on 3'} bytes, cached header properties touched at varying points; "
+                  "(e) in a fresh interpreter: for every shape (pos mod 8 in 0..7, width 1..72, 80, 96, 127, 128) a failing over-read first, then in-range reads of that shape" % (4 if ctx.quick else 6)),
         "rule": ("one evaluation = one read (int or bytes) of one (buffer, p, n); distinct non-trivial = distinct small buffers fully "
                  "swept plus distinct (length, p, n) windows swept over the content family"),
     }
@@ -234,6 +293,11 @@ def replay(case):
     if isinstance(case["buf"], dict):
         return None
     buf = bytes.fromhex(case["buf"])
+    if case.get("cold_start"):
+        t = Tally()
+        _cold_start(t)
+        return next((v for v in t.violations if v["case"].get("pos") == case.get("pos") and v["case"].get("nbits") == case.get("nbits")
+                     and v["case"].get("read") == case.get("read")), None)
     if "history" in case:
         bits = _bits(buf)
         r = RPD(buf)
